@@ -19,7 +19,7 @@ PROP = "C01"
 META = {
  "engine": "S-scheduler",
  "text": "Coq theorems (Props/C01.v) about the executable model of Track.tick/Timeline.tick (Sched/Model.v), for ALL tick lengths, all event streams with durations >= 1 tick (on or off the tick grid, finite or cyclic) and ALL run lengths (induction over the number of ticks, no bound): event k is performed exactly once, on the first tick at or after start + exact sum of the preceding durations; each onset depends only on that sum (no compounding of rounding); a nudge by x shifts every later onset to the first tick at or after the shifted time; Timeline/Track time after n ticks is n ticks. The model is tied to /repo on every run by a correspondence check: random histories at 9 resolutions incl. off-grid durations (0.1, 1/3, 5/7 ...), quantized/delayed starts, nudges, and runs of 1.2*10^6 ticks (quick) are executed on the real Timeline with a recording OutputDevice and inside Coq (vm_compute) on the model and compared call by call and tick by tick; an independent exact-fraction oracle judges every implementation trace. Widened (Sched/Retick.v, RetickProofs.v; theorems C01_retick_onsets, C01_retick_two_segments, C01_self_nudge, C01_retick_timeline_time, about Timeline.tick itself on a single-track timeline): the tick length may change before EVERY tick (any schedule of resolutions) - tick times are the exact cumulative sums of the tick lengths, for the track and for the timeline - and every event may nudge its own track re-entrantly from inside its own performance: event k is performed on tick j iff tick j is the first tick at or after start + exact sum of the preceding durations and self-nudges. Correspondence strata: histories with one or two `timeline.ticks_per_beat = N` assignments between ticks (before/after scheduling, on and off the new grid, with API reads in between) and tracks whose events nudge their own track from an action / a track event callback / Timeline.on_event_callback, run on the real Timeline (harness/impl/c01_impl.py) and on the model (run_segs, one configuration per segment). Ticks cut short by an exception (Sched/ClockStepProofs.v; theorems C01_survivors_advance, C01_clocks_in_step, for EVERY reachable state and every history, any number of tracks, callbacks, faults in tolerant or intolerant mode): after a completed Timeline.tick every started track that is still scheduled has had its clock advanced by exactly one tick, hence Track.current_time = Timeline.current_time - start for every surviving track; stratum: 1-3 tracks (notes, controls, program changes, actions, some raising), the n-th device call raises (OSError family or another class; a second fault later), or a pattern raises, tolerant and intolerant; the oracle judges the onsets of every track and the clocks of the survivors. Resolutions that are multiples of 512 (512 ... 3584: the tick grid sits on decimal ties of round(., 8)) with one-tick and mixed durations (0.2, 1/512, 0.1) are part of the ordinary strata.",
- "note": "Trusted: Coq kernel+VM; the Python harness. Modelled, not verified: IEEE-754 rounding inside isobar (the model computes in exact integer units; round(x, 8) comparisons are exact on grids below 10^8 units per beat, Base/Round8.v) - agreement of the float implementation with the exact model is validated by the correspondence runs, including > 10^6-tick runs, not proved.",
+ "note": "Trusted: Coq kernel+VM; the Python harness; harness/gen_tables_time.py (ast translator of the time-advance and due-test expressions of timeline.py/track.py/util.py into Generated/TablesTime.v). The scheduler model computes in exact integer units (round(x, 8) comparisons are exact on grids below 10^8 units per beat, Base/Round8.v). The binary64 arithmetic of isobar's clock and due test is no longer only validated: Props/C01Float.v (Base/FloatGrid*.v, FloatDue*.v, Flocq) proves for the terms generated from the source that the float time after n ticks is the correctly rounded n/tpb (tpb <= 2^20, n <= 2^32), that after a change of resolution every tick lasts one new tick, and that the float due test and the whole float run of Track.tick decide exactly like exact arithmetic at every resolution under a stated error budget (admissible'); these theorems depend on the standard library's axioms of the classical reals (sig_forall_dec, sig_not_dec, functional_extensionality_dep, classic), listed in the evidence. Modelling assumptions of that layer, not proved: one correctly rounded binary64 operation per Python float operation, float(duration) is the nearest double, round(x, 8) is correctly rounded decimal rounding, int/int true division is correctly rounded. Runs beyond the error budget (more than about 1.5*10^7 event-beats) and float nudges are validated by the correspondence runs (> 10^6 ticks) only.",
 }
 
 
